@@ -377,9 +377,58 @@ fn gen_case(rng: &mut StdRng, len: usize) -> Case {
     Case { start, shared: rng.gen_bool(0.2), ops }
 }
 
+/// The overlay as the daemon uses it with `virtual-system-clock`: `SharedClock<OverlayClock<LinuxClock>>`
+/// over the real (read-only) CLOCK_TAI. Converting a packet timestamp of the underlying clock must
+/// agree with the overlay's own mapping of that instant, through every wrapper.
+fn linux_overlay(rep: &mut Report, seed: u64) {
+    use statime_linux::clock::{LinuxClock, PortTimestampToTime};
+    let replay = json!({"linux_overlay_seed": seed});
+    let mut rng = StdRng::seed_from_u64(seed);
+    let r = guarded(|| {
+        let mut shared = SharedClock::new(OverlayClock::new(LinuxClock::CLOCK_TAI));
+        let mut problems: Vec<String> = vec![];
+        for _ in 0..rng.gen_range(1..6) {
+            if rng.gen_bool(0.6) {
+                let d = [5i64, -3, 1_000, 37][rng.gen_range(0..4)] * 1_000_000_000 + rng.gen_range(0..1_000_000_000i64);
+                let _ = shared.step_clock(Duration::from_nanos(d));
+            } else {
+                let _ = shared.set_frequency([400.0, -250.0, 12.5, 0.0][rng.gen_range(0..4)]);
+            }
+            // packet timestamps around "now" of the underlying clock and far from it
+            let now_raw = LinuxClock::CLOCK_TAI.now();
+            let base_s = (now_raw.secs() as i64).saturating_sub(37);
+            for off in [0i64, 1, -1, 10_000, -10_000] {
+                let ts = timestamped_socket::socket::Timestamp { seconds: base_s + off, nanos: rng.gen_range(0..1_000_000_000) };
+                let via_shared = shared.port_timestamp_to_time(ts);
+                let (via_overlay, mapped) = {
+                    let g = shared.0.lock().unwrap();
+                    let raw = g.underlying().port_timestamp_to_time(ts);
+                    (g.port_timestamp_to_time(ts), g.time_from_underlying(raw))
+                };
+                if via_shared != mapped || via_overlay != mapped {
+                    problems.push(format!(
+                        "timestamp {}.{:09}: SharedClock gives {:?}, OverlayClock gives {:?}, the overlay maps that underlying instant to {:?}",
+                        ts.seconds, ts.nanos, via_shared, via_overlay, mapped
+                    ));
+                }
+            }
+        }
+        problems
+    });
+    match r {
+        Ok(problems) => {
+            rep.ev("linux_overlay_conversions");
+            for p in problems.iter().take(2) {
+                rep.violation("C18|port-timestamp|disagrees-with-overlay-mapping", p, replay.clone());
+            }
+        }
+        Err(p) => rep.violation(&format!("C18|panic|{}|{}", p.site(), p.class()), &format!("overlay over LinuxClock panicked: {}", p.describe()), replay),
+    }
+}
+
 pub fn run(rep: &mut Report, tier: &str, seed: u64, shard: (u32, u32), replay: Option<&str>) {
     rep.rule = "operation sequences over {set_frequency, step_clock, advance underlying, probe}; all kind pairs/triples with lattice values enumerated, then seeded random sequences of length <= 50; distinct = distinct sequences; non-trivial = contains at least one adjustment and one advance".into();
-    rep.require(&["advance", "set_frequency", "step_clock", "probe", "probe_past"]);
+    rep.require(&["advance", "set_frequency", "step_clock", "probe", "probe_past", "linux_overlay_conversions"]);
     if let Some(path) = replay {
         let v: serde_json::Value = serde_json::from_str(&std::fs::read_to_string(path).unwrap()).unwrap();
         let case: Case = serde_json::from_value(v["case"].clone()).unwrap();
@@ -391,6 +440,9 @@ pub fn run(rep: &mut Report, tier: &str, seed: u64, shard: (u32, u32), replay: O
         return;
     }
     let mut rng = StdRng::seed_from_u64(seed ^ 0xc18 ^ ((shard.0 as u64) << 40));
+    for k in 0..if tier == "thorough" { 200 } else { 20 } {
+        linux_overlay(rep, seed.wrapping_add(k));
+    }
     if shard.0 == 0 {
         // enumerated pairs / triples over lattice values
         let freqs = [0i64, 500 << 20, -(500 << 20), 1 << 20, 123_456_789];
